@@ -983,8 +983,10 @@ impl<'a> Renderer<'a> {
                     if (sql.len() + k) % 4 == 0 && !self.db.tables.is_empty() {
                         let cand = self.db.tables[sql.len() % self.db.tables.len()].name.clone();
                         if !self.ctes.iter().any(|(n, _)| *n == cand) {
+                            // does the body read its namesake?
+                            let reads_it = sql.split(|c: char| !(c.is_ascii_alphanumeric() || c == '_')).any(|tok| tok == cand);
                             name = cand;
-                            self.class("cte_named_like_table");
+                            self.class(if reads_it { "cte_named_like_table" } else { "cte_named_like_other_table" });
                         }
                     }
                     let sc: Scope = info
